@@ -122,6 +122,10 @@ func (e Float64Engine) makeArray(arr *array, t Dtype, size int) {
 
 func (e Float64Engine) FMA(a, x, y Tensor) (retVal Tensor, err error) {
 	reuse := y
+	if !a.Shape().Eq(x.Shape()) || !a.Shape().Eq(y.Shape()) {
+		// operands whose shapes do not fit are the default engine's business (it refuses or reshapes them)
+		return e.StdEng.FMA(a, x, y)
+	}
 	if err = e.checkThree(a, x, reuse); err != nil {
 		return nil, errors.Wrap(err, "Failed checks")
 	}
@@ -173,6 +177,18 @@ func (e Float64Engine) Add(a Tensor, b Tensor, opts ...FuncOpt) (retVal Tensor, 
 	if a.RequiresIterator() || b.RequiresIterator() || !a.Shape().Eq(b.Shape()) {
 		// the fast path below walks raw storage: everything else (and the refusal of shapes that do not fit) is the
 		// default engine's business
+		return e.StdEng.Add(a, b, opts...)
+	}
+
+	if !a.DataOrder().HasSameOrder(b.DataOrder()) {
+		// operands of different data orders have to be walked by coordinate
+		return e.StdEng.Add(a, b, opts...)
+	}
+	fo := ParseFuncOpts(opts...)
+	dest, _ := fo.IncrReuse()
+	returnOpOpt(fo)
+	if dest != nil && (!dest.Shape().Eq(a.Shape()) || !dest.DataOrder().HasSameOrder(a.DataOrder())) {
+		// so has a destination of another data order, and one of another shape is reshaped by the default engine
 		return e.StdEng.Add(a, b, opts...)
 	}
 
